@@ -278,6 +278,9 @@ fn object_tpl_pattern_match_member_owner_match(
     };
 
     let members = get_member_map(context.db, &owner_type).ok_or(InferFailReason::None)?;
+    // visit the members in key order, not in the hash map's iteration order
+    let mut members: Vec<_> = members.into_iter().collect();
+    members.sort_by(|a, b| a.0.cmp(&b.0));
     for (k, v) in members {
         let resolve_key = match &k {
             LuaMemberKey::Integer(i) => Some(LuaType::IntegerConst(*i)),
@@ -491,6 +494,9 @@ fn table_generic_tpl_pattern_member_owner_match(
     let target_key_type = table_generic_params[0].clone();
     let mut keys = Vec::new();
     let mut values = Vec::new();
+    // the key / value unions list the members in key order, not in the hash map's iteration order
+    let mut members: Vec<_> = members.into_iter().collect();
+    members.sort_by(|a, b| a.0.cmp(&b.0));
     for (k, v) in members {
         let key_type = match k {
             LuaMemberKey::Integer(i) => LuaType::IntegerConst(i),
